@@ -120,6 +120,14 @@ func VerifC07_Alignment() {
 	for r := range g {
 		g[r] = make([]alphabet.QLetter, cols)
 		for c := range g[r] {
+			if m := verifParam("symcells"); m >= 0 && m&(1<<uint(r*cols+c)) == 0 {
+				// larger grids: only the cells of the mask are symbolic, the rest a fixed pattern
+				g[r][c] = alphabet.QLetter{L: alphabet.Letter("acgt-"[(r*3+c*2)%5]), Q: alphabet.Qphred(10 + (r+c)%30)}
+				if !qual {
+					g[r][c].Q = seq.DefaultQphred
+				}
+				continue
+			}
 			g[r][c] = verifQL("g"+string(rune('0'+r))+string(rune('0'+c)), comp)
 			if !qual {
 				g[r][c].Q = seq.DefaultQphred
